@@ -92,7 +92,7 @@ fn views(lang: u8, c: u8) -> LanguageViews {
 c08! {
 /// PlutusV2 view: plain key and definite list
 /// bound: one language (V2), one coefficient symbolic in 0..=23; redeemers None, datums None; unwind 34
-fn c08_t_hash_views_v2() {
+fn c08_x_hash_views_v2() {
     let c = small();
     let sd = ScriptData { redeemers: None, datums: None, language_views: Some(views(1, c)) };
     let got = sd.hash();
@@ -106,7 +106,7 @@ fn c08_t_hash_views_v2() {
 c08! {
 /// PlutusV1 view: key wrapped in a byte string (41 00), value = byte string holding an INDEFINITE list
 /// bound: one language (V1), one coefficient symbolic in 0..=23; unwind 34
-fn c08_t_hash_views_v1() {
+fn c08_x_hash_views_v1() {
     let c = small();
     let sd = ScriptData { redeemers: None, datums: None, language_views: Some(views(0, c)) };
     let got = sd.hash();
@@ -120,7 +120,7 @@ fn c08_t_hash_views_v1() {
 c08! {
 /// PlutusV3 view
 /// bound: one language (V3), one coefficient symbolic in 0..=23; unwind 34
-fn c08_t_hash_views_v3() {
+fn c08_x_hash_views_v3() {
     let c = small();
     let sd = ScriptData { redeemers: None, datums: None, language_views: Some(views(2, c)) };
     let got = sd.hash();
@@ -138,7 +138,7 @@ fn datum(x: u8) -> PlutusData {
 c08! {
 /// redeemers in list form
 /// bound: one redeemer [tag Mint, index 0, data h'xx', [mem, steps]] with xx any byte and mem, steps symbolic in 0..=23; datums None, views None; unwind 34
-fn c08_t_hash_redeemers_list() {
+fn c08_x_hash_redeemers_list() {
     let (x, mem, steps) = (kani::any::<u8>(), small(), small());
     let r = Redeemer { tag: RedeemerTag::Mint, index: 0, data: datum(x), ex_units: ExUnits { mem: mem as u64, steps: steps as u64 } };
     let sd = ScriptData { redeemers: Some(Redeemers::List(vec![r])), datums: None, language_views: None };
@@ -153,7 +153,7 @@ fn c08_t_hash_redeemers_list() {
 c08! {
 /// redeemers in map form
 /// bound: one entry {[tag Spend, index 0]: [h'xx', [mem, steps]]}; unwind 34
-fn c08_t_hash_redeemers_map() {
+fn c08_x_hash_redeemers_map() {
     let (x, mem, steps) = (kani::any::<u8>(), small(), small());
     let mut m = BTreeMap::new();
     m.insert(RedeemersKey { tag: RedeemerTag::Spend, index: 0 }, RedeemersValue { data: datum(x), ex_units: ExUnits { mem: mem as u64, steps: steps as u64 } });
@@ -195,7 +195,7 @@ fn c08_q_build_for_none() {
 c08! {
 /// build_for with datums only: Some, and the language views are dropped
 /// bound: datums raw = 3 arbitrary bytes; views {V2: [c]}; unwind 34
-fn c08_t_build_for_datums_only() {
+fn c08_x_build_for_datums_only() {
     let raw: [u8; 3] = kani::any();
     let inner_raw: [u8; 2] = [0x41, 0x00];
     let leaf = KeepRaw::verif_from_parts(&inner_raw[..], datum(0));
